@@ -71,6 +71,9 @@ impl WriteBatch {
 
 struct KeyValueStoreState {
     seq_no: u64,
+    // The largest sequence number whose batch (and every batch before it) is fully applied.
+    // Readers snapshot at this number, never at the allocation counter `seq_no`.
+    visible_seq_no: u64,
     imm: Option<Arc<MemTable>>,
     imm_trigger: u64,
     mem: Arc<MemTable>,
@@ -115,6 +118,7 @@ impl KeyValueStore {
         seq_no += 1;
         let state = Mutex::new(KeyValueStoreState {
             seq_no,
+            visible_seq_no: seq_no,
             imm,
             imm_trigger,
             mem,
@@ -334,7 +338,7 @@ impl KeyValueStore {
     }
 
     pub fn write(&self, mut batch: WriteBatch) -> Result<(), SError> {
-        let (mut wait_guard, memtable, log) = {
+        let (mut wait_guard, memtable, log, seq_no) = {
             let mut state = self.state.lock().unwrap();
             let wait_guard = self.wait_list.link(());
             let seq_no = state.seq_no + 1;
@@ -349,6 +353,7 @@ impl KeyValueStore {
                 wait_guard,
                 Arc::clone(&state.mem),
                 Arc::clone(&state.mem_log),
+                seq_no,
             )
         };
         let mut log_batch = sst::log::WriteBatch::default();
@@ -363,6 +368,8 @@ impl KeyValueStore {
         while !wait_guard.is_head() {
             state = wait_guard.naked_wait(state);
         }
+        // Every earlier writer has finished and this batch is in the memtable:  publish it.
+        state.visible_seq_no = std::cmp::max(state.visible_seq_no, seq_no);
         drop(wait_guard);
         self.wait_list.notify_head();
         Ok(())
@@ -374,7 +381,7 @@ impl KeyValueStore {
             let mem = Arc::clone(&state.mem);
             let imm = state.imm.clone();
             let version = self.tree.take_snapshot();
-            (mem, imm, version, state.seq_no)
+            (mem, imm, version, state.visible_seq_no)
         };
         *is_tombstone = false;
         let ret = mem.load(key, timestamp, is_tombstone)?;
@@ -401,7 +408,7 @@ impl KeyValueStore {
             let mem = Arc::clone(&state.mem);
             let imm = state.imm.clone();
             let version = self.tree.take_snapshot();
-            (mem, imm, version, state.seq_no)
+            (mem, imm, version, state.visible_seq_no)
         };
         let mut cursors: Vec<Box<dyn Cursor>> = Vec::with_capacity(3);
         let mut mem_scan = mem.range_scan(start_bound, end_bound, timestamp)?;
